@@ -353,6 +353,7 @@ def gen_cases(prop, u, seed, tier, probe=None):
     elif prop == 'C12':
         plan = []
         for i, t in enumerate(u.types):
+            if max_unit(t) > 128: continue      # (streams of 16 KiB and more: exercised by the over-aligned loads below only)
             for v in values_for(t, rng, 3 if quick else 8):
                 plan.append((i, v))
         answers = probe(['schema %d %s' % (i, v) for i, v in plan])
@@ -371,6 +372,14 @@ def gen_cases(prop, u, seed, tier, probe=None):
             bytealigned = all(native_align(x) == 1 for x in u.types[i].walk() if x.is_zc())
             for r in rs:
                 case(i, r, '-', v, 'placement', blocks=blocks, bytealigned=bytealigned)
+        # units above the alignment of the loaders' regions (64 for the heap, a page for the mappings): a load either fails with
+        # an alignment error or returns a structure none of whose references is misaligned, wherever the region happens to be
+        for i, t in enumerate(u.types):
+            if max_unit(t) <= 64 or (isinstance(t, Adt) and t.d.copy == 'zero'): continue
+            for v in values_for(t, rng, 2):
+                for rep in range(4 if quick else 16):
+                    for l in ('mem', 'mmap', 'map'):
+                        cs.add('loadu %d %s 0 %s' % (i, l, v), kind='loadu', ti=i, val=v, loader=l, family='load-overaligned-' + l)
     elif prop == 'C15':
         plan = []
         for i, t in enumerate(u.types):
@@ -640,6 +649,8 @@ def gen_cases(prop, u, seed, tier, probe=None):
             for k in sorted(set([0, 8, 29, n // 2, max(n - 1, 0)])):
                 cs.add('wfail %d k=%d,m=%s,ff=0,sch=1 %s' % (i, k, rng.choice(['-', '3']), v), kind='wfail', ti=i, val=v, k=k, total=n, ff=False, family='schema-fail-at-k')
             cs.add('wfail %d devfull %s' % (i, v), kind='wfail', ti=i, val=v, k=0, total=n, ff=False, devfull=True, family='dev-full')
+            if i % 3 == 0:
+                cs.add('wfail %d storefull %s' % (i, v), kind='wfail', ti=i, val=v, k=0, total=n, ff=False, devfull=True, family='store-dev-full-stderr-full')
         for k_, t in enumerate(u.slice_elems):
             vt = Seq('vec', t)
             for v in ['[]'] + values_for(vt, rng, 3 if quick else 8):
@@ -659,6 +670,10 @@ def gen_cases(prop, u, seed, tier, probe=None):
             if n > (300 if quick else 5000): continue
             for pat in ['one', 'onei', 'p3', 'p7i', 'mix', 'mixb', 'r%d' % rng.randrange(1000), 'r%di' % rng.randrange(1000), 'all', 'p3bi']:
                 cs.add('rchunk %d %s - %s' % (i, pat, v), kind='rchunk', ti=i, val=v, k=None, total=n, family='chunking')
+            # load_full of a named pipe fed in fragments by another thread (every 7th type in the quick tier)
+            if n <= 200 and (not quick or i % 7 == 0):
+                for pat in ['fifo-one', 'fifo-p7', 'fifo-mix', 'fifo-all']:
+                    cs.add('rchunk %d %s - %s' % (i, pat, v), kind='rchunk', ti=i, val=v, k=None, total=n, family='fifo')
             ks = range(n) if (not quick or i % 5 == 0) else sorted(set([0, 1, 7, 8, 28, 29, 36, 37, max(n - 9, 0), max(n - 1, 0)] + rng.sample(range(n), min(6, n))))
             for k in ks:
                 pat = rng.choice(['one', 'p3i', 'mix', 'r%d' % rng.randrange(100), 'p7b'])
